@@ -3,7 +3,7 @@ from __future__ import annotations
 
 import ast
 
-from .. import normal, pipeline, sym
+from .. import normal, pipeline, render, sym
 from ..model import AnalysisError, Repo
 from ..report import Run
 from ..sym import T, const, param
@@ -189,11 +189,80 @@ def analyse_listing(repo: Repo, run: Run, interp, name: str):
                        f"no filter stage selects `{sym.pretty(pred)}` ({meaning})",
                        facts={"stages": [sym.pretty(p) for _, p, _ in got]}, line=fn.lineno)
     for i, (c, p, s) in enumerate(got):
+        if i not in used and _vacuous_window(repo, ci.module, fn, c, p):
+            # a stage on a record field bounded by parameters whose defaults let every record through (start=0, end=inf on an
+            # unsigned 64-bit timestamp): an option of the listing, not a filter of the default request
+            run.ob("R2", MOD, name, f"optional stage {i} passes every record by default", True, nontrivial=False)
+            continue
         if i not in used:
             run.ob("R2", MOD, name, f"extra stage {i}", False,
                    f"the listing applies a filter the property does not allow: `{sym.pretty(p)}` when {sym.pretty(c)}",
                    line=fn.lineno)
     return len(stages)
+
+
+U64_MAX = (1 << 64) - 1
+
+
+def _vacuous_window(repo: Repo, mod, fn, cond: T, pred: T) -> bool:
+    """The stage is applied always and its predicate is a conjunction of comparisons between the record's timestamp (an
+    unsigned 64-bit field) and parameters of the listing, true for every timestamp when the parameters keep their defaults."""
+    import ast as _ast, math
+    from .. import consteval, guards as _g
+    if sym.truth(cond) is not True and cond != const(True):
+        return False
+    a = fn.args
+    defaults = dict(zip([x.arg for x in a.args[len(a.args) - len(a.defaults):]], a.defaults))
+    defaults.update({k.arg: d for k, d in zip(a.kwonlyargs, a.kw_defaults) if d is not None})
+
+    def dflt(t):
+        if t.op == "const" and isinstance(t.a[0], (int, float)) and not isinstance(t.a[0], bool):
+            return t.a[0]
+        if t.op == "param" and t.a[0] in defaults:
+            node = defaults[t.a[0]]
+            dn = repo.dotted(mod, node) if isinstance(node, (_ast.Attribute, _ast.Name)) else None
+            if dn == "math.inf":
+                return math.inf
+            if dn == "sys.maxsize":
+                return (1 << 63) - 1
+            if isinstance(node, _ast.UnaryOp) and isinstance(node.op, _ast.USub):
+                inner = dflt_node(node.operand)
+                return None if inner is None else -inner
+            return dflt_node(node)
+        return None
+
+    def dflt_node(node):
+        dn = repo.dotted(mod, node) if isinstance(node, (_ast.Attribute, _ast.Name)) else None
+        if dn == "math.inf":
+            return math.inf
+        v = consteval.evaluate(repo, mod, node)
+        return v if isinstance(v, (int, float)) and not isinstance(v, bool) else None
+
+    def is_ts(t):
+        return t.op == "attr" and t.a[1] == "timestamp" and t.a[0].op in ("param", "elem", "bound")
+    atoms = _g._atoms(((pred, True),))
+    if not atoms:
+        return False
+    for c_, pol in atoms:
+        atom, apol = render.norm_bool(c_)
+        eff = pol if apol else not pol
+        if atom.op != "cmp" or atom.a[0] not in ("<", "<=", ">", ">="):
+            return False
+        l, r, op = atom.a[1], atom.a[2], atom.a[0]
+        if is_ts(r) and not is_ts(l):
+            l, r, op = r, l, {"<": ">", "<=": ">=", ">": "<", ">=": "<="}[op]
+        if not is_ts(l):
+            return False
+        b = dflt(r)
+        if b is None:
+            return False
+        if not eff:
+            op = {"<": ">=", "<=": ">", ">": "<=", ">=": "<"}[op]
+        # must hold for every ts in [0, 2**64 - 1]
+        ok = {"<": U64_MAX < b, "<=": U64_MAX <= b, ">": 0 > b, ">=": 0 >= b}[op]
+        if not ok:
+            return False
+    return True
 
 
 CLI_WIRING = {"tid": "filter_tid", "process": "filter_process", "class_filters": "filter_class",
